@@ -244,14 +244,24 @@ class FaultPlan:
         return False
 
 
-def run_faulted(u, setup, call, k, persistent, err=errno.EIO, pids=PIDS, fmts=FMTS, keep=False):
-    """-> dict(outcome, state, locks, sites, fired, im?)"""
+def run_faulted(u, setup, call, k, persistent, err=errno.EIO, pids=PIDS, fmts=FMTS, keep=False, mode="th"):
+    """-> dict(outcome, state, locks, sites, fired, im?)   mode "mp": the store is initialised with USE_MULTIPROCESSING=True"""
     seq.prepare(u, setup + [call])
-    im = fresh_impl(u, setup, pids, fmts)
+    old_env = os.environ.get("USE_MULTIPROCESSING")
+    if mode == "mp":
+        os.environ["USE_MULTIPROCESSING"] = "True"
+    try:
+        im = fresh_impl(u, setup, pids, fmts)
+    finally:
+        if mode == "mp":
+            if old_env is None:
+                os.environ.pop("USE_MULTIPROCESSING", None)
+            else:
+                os.environ["USE_MULTIPROCESSING"] = old_env
     ok = False
     try:
         fsmon.install()
-        fsmon.instrument_store(im.hs)
+        fsmon.instrument_store(im.hs, mode)
         im.refresh()
         plan = FaultPlan(im, k, persistent, err)
         box = []
@@ -264,7 +274,7 @@ def run_faulted(u, setup, call, k, persistent, err=errno.EIO, pids=PIDS, fmts=FM
             t.start()
             t.join(10.0)
         r = box[0] if box else "HANG"          # the call did not return within 10 s: the thread is abandoned
-        res = {"outcome": r, "state": im.state(), "locks": {a: b for a, b in fsmon.locked_lists(im.hs).items() if b},
+        res = {"outcome": r, "state": im.state(), "locks": {a: b for a, b in fsmon.locked_lists(im.hs, mode).items() if b},
                "sites": plan.count, "fired": plan.fired}
         if keep:
             res["im"] = im
